@@ -30,6 +30,28 @@ func findSegmentWithID(seqNo int, segments []*playlist.MediaSegment, id int) (*p
 	return segments[index], index, len(segments) - index
 }
 
+// RFC 8216, 4.3.2.2: if the offset of a byte range is not present, the sub-range
+// begins at the next byte following the sub-range of the previous media segment.
+func byteRangeStartOfSegment(segments []*playlist.MediaSegment, pos int) *uint64 {
+	seg := segments[pos]
+	if seg.ByteRangeLength == nil || seg.ByteRangeStart != nil || pos == 0 {
+		return seg.ByteRangeStart
+	}
+
+	prev := segments[pos-1]
+	if prev.ByteRangeLength == nil || prev.URI != seg.URI {
+		return nil
+	}
+
+	prevStart := byteRangeStartOfSegment(segments, pos-1)
+	if prevStart == nil {
+		return nil
+	}
+
+	v := *prevStart + *prev.ByteRangeLength
+	return &v
+}
+
 func dateTimeOfPreloadHint(pl *playlist.Media) *time.Time {
 	if len(pl.Segments) == 0 {
 		return nil
@@ -342,7 +364,7 @@ func (d *clientStreamDownloader) fillSegmentQueue(
 	v := pl.MediaSequence + segPos
 	d.curSegmentID = &v
 
-	byts, err := d.downloadSegment(ctx, seg.URI, seg.ByteRangeStart, seg.ByteRangeLength)
+	byts, err := d.downloadSegment(ctx, seg.URI, byteRangeStartOfSegment(pl.Segments, segPos), seg.ByteRangeLength)
 	if err != nil {
 		return err
 	}
